@@ -45,6 +45,34 @@ def one(seed, checks):
         shutil.rmtree(s, ignore_errors=True)
 
 
+# which checks analyse which source file (generous: a check is listed for every file it reads, directly or through callees)
+FILE_CHECKS = {
+    "str.c": ["C01", "C05", "C06", "C12", "C14", "C16", "C19"], "ustr.c": ["C01", "C05", "C06", "C16"],
+    "mbuff.c": ["C05", "C06", "C07", "C16"], "obj.c": ["C05", "C06", "C16"], "objpair.c": ["C03", "C05", "C06", "C16"],
+    "array.c": ["C02", "C03", "C04", "C05", "C06", "C16"], "linked_list.c": ["C02", "C03", "C04", "C05", "C06", "C16"],
+    "dlinked_list.c": ["C02", "C03", "C04", "C05", "C06", "C16"], "conf.c": ["C09", "C10", "C11", "C16", "C17"],
+    "file.c": ["C11", "C16"], "strings.c": ["C01", "C10", "C11", "C12", "C13", "C16", "C17"], "options.c": ["C08", "C16"],
+    "mem.c": ["C15", "C16", "C20"], "socket.c": ["C05", "C06", "C16", "C19"], "url.c": ["C05", "C06", "C14", "C16", "C19"],
+    "tok.c": ["C05", "C06", "C12", "C16"], "regexp.c": ["C05", "C06", "C16"], "builtin_hashes.c": ["C18"],
+    "msgs.c": ["C16", "C17", "C20"], "debug.c": ["C20"], "module.c": ["C05", "C06", "C16"], "snprintf.c": [], "avl_tree.c": [],
+}
+
+
+def related_checks(seed):
+    d = os.path.join(SEEDED, seed)
+    out = {seed[:3]}
+    try:
+        txt = open(os.path.join(d, "patch.diff"), errors="replace").read()
+    except OSError:
+        return sorted(out)
+    for m in re.finditer(r"^\+\+\+ \S*?([\w.]+)\s*$", txt, re.M):
+        fn = m.group(1)
+        if fn.endswith(".h") or fn.endswith(".h.in"):
+            return ALL                      # a header reaches every unit
+        out.update(FILE_CHECKS.get(fn, ALL))
+    return sorted(out)
+
+
 def main():
     global SEEDED
     args = sys.argv[1:]
@@ -59,6 +87,9 @@ def main():
         i = args.index("--out")
         out_path = args[i + 1]
         del args[i:i + 2]
+    related = "--related" in args       # the property's own check plus every check that analyses a file the patch touches
+    if related:
+        args.remove("--related")
     only = None
     if "--checks" in args:
         i = args.index("--checks")
@@ -75,7 +106,7 @@ def main():
     if os.path.exists(out_path):
         results = json.load(open(out_path))
     with concurrent.futures.ThreadPoolExecutor(max_workers=jobs) as ex:
-        futs = [ex.submit(one, s, only or (ALL if allc else [s[:3]])) for s in ids]
+        futs = [ex.submit(one, s, only or (ALL if allc else (related_checks(s) if related else [s[:3]]))) for s in ids]
         for f in concurrent.futures.as_completed(futs):
             seed, res = f.result()
             results.setdefault(seed, {}).update(res)
